@@ -93,7 +93,7 @@ Definition cur_ok (pc : ppc) (cur : option status) : bool :=
 Definition RInv (s : pstate) : Prop :=
   let n := rfold (pscript s) in
   r_closed n <= r_fin n /\ r_cur n <= promise (p_pc s) /\ side (p_pc s) = true /\ cur_ok (p_pc s) (p_cur s) = true /\
-  forallb consistent_beh (p_behs s) = true.
+  forallb consistent_beh (p_behs s) = true /\ p_faults s = [].
 
 Lemma rk_le3 st : rk st <= 3.
 Proof. destruct st; cbn; lia. Qed.
@@ -113,13 +113,13 @@ Lemma next_step_cur steps scs e cur : rk_opt cur <= rank_end e -> cur_ok (next_s
 Proof. intros H. destruct steps; cbn [next_step cur_ok]; apply Nat.leb_le; exact H. Qed.
 
 Ltac rinv_open :=
-  unfold RInv, pscript, pset, pput in *; cbn [p_out p_pc p_cur p_behs] in *;
+  unfold RInv, pscript, pset, pput in *; cbn [p_out p_pc p_cur p_behs p_faults tl] in *;
   rewrite ?rfold_snoc; cbn [rstep r_fin r_closed r_cur promise side cur_ok rk rk_opt srank] in *.
 
 Lemma RInv_step c s l : RInv s -> RInv (pstep c s l).
 Proof.
   intros H. destruct l; cbn [pstep]; [|exact H].
-  unfold RInv in H. destruct H as (H1 & H2 & H3 & H4 & H5).
+  unfold RInv in H. destruct H as (H1 & H2 & H3 & H4 & H5 & Hf).
   destruct (p_pc s) eqn:Epc; cbn [promise side cur_ok] in *.
   - (* PTop *) rinv_open. repeat split; auto.
   - (* PIntrCheck *) destruct (p_stop s); [rinv_open; repeat split; auto|].
@@ -145,7 +145,7 @@ Proof.
       repeat split; auto. apply Nat.leb_le. exact Ha.
     + rinv_open. repeat split; auto. apply Nat.leb_le. exact Ha.
     + rinv_open. repeat split; auto. pose proof (rank_end_le3 e). lia.
-  - (* PTear *) destruct k as [scs e|]; rinv_open.
+  - (* PTear *) destruct k as [scs e|]; rinv_open; rewrite ?Hf; cbn [tl].
     + apply Nat.leb_le in H4. repeat split; auto. destruct (p_cur s) as [st|]; cbn [rk_opt rk] in *; lia.
     + repeat split; auto. destruct (p_cur s) as [st|]; [pose proof (rk_le3 st)|cbn]; lia.
   - (* PExcept *) destruct w as [e|].
@@ -155,12 +155,12 @@ Proof.
   - rinv_open. repeat split; auto.
   - rinv_open. repeat split; auto.
   - (* PFinally *) destruct again; rinv_open; repeat split; auto; lia.
-  - (* PDone *) unfold RInv. rewrite Epc. cbn [promise side cur_ok]. auto.
+  - (* PDone *) unfold RInv. rewrite Epc. cbn [promise side cur_ok]. repeat split; auto.
 Qed.
 
 Lemma RInv_init stop0 limit0 counter0 behs :
   forallb consistent_beh behs = true -> RInv (pinit stop0 limit0 counter0 behs).
-Proof. intros H. unfold RInv, pinit, pscript. cbn. auto. Qed.
+Proof. intros H. unfold RInv, pinit, pinit_f, pscript. cbn. repeat split; auto. Qed.
 
 Lemma RInv_run c ls s : RInv s -> RInv (prun c ls s).
 Proof. unfold prun. revert s. induction ls as [|l ls IH]; intros s H; cbn [fold_left]; auto. apply IH, RInv_step, H. Qed.
